@@ -328,6 +328,13 @@ def oracle(ctx):
     for meth in ("exacteig", "custom_exacteig", "davidson"):
         histories(lambda m=meth: symeig(xt.LinearOperator.m((spd + spd.T) / 2, is_hermitian=True), 2, method=m)[0],
                   [spd], "symeig:" + meth, {"method": meth})
+    # generalised problems: the overlap operator and its tensors are created by every call and must die with it (seeded defect
+    # C19/5: a module-level memo of davidson's initial guess keyed by the operator M)
+    Ml = (0.3 * torch.randn(6, 6, dtype=DT, generator=g)).requires_grad_()
+    for meth in ("exacteig", "custom_exacteig", "davidson"):
+        histories(lambda m=meth: symeig(xt.LinearOperator.m((spd + spd.T) / 2, is_hermitian=True), 2,
+                                        M=xt.LinearOperator.m(Ml @ Ml.T + torch.eye(6, dtype=DT), is_hermitian=True), method=m)[0],
+                  [spd, Ml], "symeig-with-M:" + meth, {"method": meth, "M": True})
     a = torch.tensor([0.7, 1.1, 0.4], dtype=DT, requires_grad=True)
     b = torch.tensor([0.2, -0.3, 0.5], dtype=DT, requires_grad=True)
     z = torch.zeros(3, dtype=DT)
